@@ -24,7 +24,7 @@ From Lal Require Import Common.LBytes Common.Res
   Remux.RemuxRtspIngestProofs.
 From Lal Require Net.NetPs Remux.RemuxPsIngestProofs Remux.RemuxPsPesProofs Remux.RemuxPsIngest.
 From Lal Require Rtp.RtpPacker Rtp.RtpUnpacker Rtp.RtpReorder Rtp.RtpFrames Rtp.RtpReorderAbs Rtp.RtpStreamProofs
-  Rtp.RtpRoundtripProofs Net.NetUnpack Codec.CodecAvcSeqHeaderProofs.
+  Rtp.RtpRoundtripProofs Net.NetUnpack Codec.CodecAvcSeqHeaderProofs Codec.CodecHevcSeqHeaderProofs.
 Open Scope N_scope.
 
 (* ======================================================================== *)
@@ -134,6 +134,16 @@ Proof.
   repeat split; auto. intros L1 L2. apply (CodecAvcSeqHeaderProofs.avc_seq_header_roundtrip sps pps h L1 L2 B).
 Qed.
 Print Assumptions c07_av2rtmp_seq_header_avc.
+
+(* the same for HEVC: VPS, SPS and PPS come back from lal's parser (c19_seqheader_hevc) *)
+Theorem c07_av2rtmp_seq_header_hevc : forall ts cands m, seq_hdr_msg true ts cands m ->
+  exists h vps sps pps, m = RAv false (ts32 ts) h /\ In vps cands /\ In sps cands /\ In pps cands /\
+    (lenN vps < 65536 -> lenN sps < 65536 -> lenN pps < 65536 -> hevc_parse_seq_header h = Ok (vps, sps, pps)).
+Proof.
+  intros ts cands m (h & vps & sps & pps & E & I1 & I2 & I3 & B). exists h, vps, sps, pps.
+  repeat split; auto. intros L0 L1 L2. apply (CodecHevcSeqHeaderProofs.hevc_seq_header_roundtrip vps sps pps h L0 L1 L2 B).
+Qed.
+Print Assumptions c07_av2rtmp_seq_header_hevc.
 
 (* a whole video track through one remuxer: reading the NAL units out of all
    its messages gives the concatenation of the kept units of all packets - same
